@@ -707,6 +707,22 @@ theorem manager_roundtrip {Obj : Type} (H : Hook Obj) (classes : List ClassSpec)
   rw [construct_after_commit classes fuel cls hist (H.toVal o) s s' hsafe hwf h]
   simpa [Except.toOption] using hinv
 
+/-- non-vacuity of the hook law: a one-attribute hook on the demo class of `Aoe.Props.Links` -/
+def demoHook : Hook Int :=
+  { toVal := fun a => .strct [.int a, .int 0, .none, .str [0x62]],
+    ofVal := fun v => match v with | .strct (.int a :: _) => some a | _ => none }
+
+example : tableSafe demoClasses 2 0 1 = true := by decide
+example : demoHook.Law demoClasses 2 0 [5] := by
+  intro a
+  refine ⟨?_, ?_⟩
+  · simp only [WF, demoClasses, demoHook, List.getElem?_cons_zero]
+    refine ⟨by simp, ?_⟩
+    intro lv hlv
+    simp only [List.zip_cons_cons, List.zip_nil_right, List.mem_cons, List.not_mem_nil, or_false] at hlv
+    rcases hlv with rfl | rfl | rfl | rfl <;> simp [linkWF]
+  · simp [normalize, demoClasses, demoHook, normLink]
+
 /-! non-vacuity: a two-level demo table (a manager with a counted list of children) -/
 def demo3Classes : List ClassSpec :=
   [{ name := 0, links := [
